@@ -13,6 +13,7 @@ _WORLDS = {
     "wire": "btcsim.worlds.w4_wire",
     "ceremony": "btcsim.worlds.w5_ceremony",
     "roles": "btcsim.worlds.w5b_roles",
+    "taptree": "btcsim.worlds.w5c_taptree",
     "protocols": "btcsim.worlds.w6_protocols",
     "custody": "btcsim.worlds.w7_custody",
     "chain": "btcsim.worlds.w9_chain",
